@@ -36,6 +36,12 @@ def gen_cases(tier, seed):
     for rep in range(12 if q else 80):
         cases.append({"type": "taylor", "norb": 4, "nelec": [2, int(rng.choice([1, 2]))], "nchol": int(rng.integers(1, 4)), "nexp": int(rng.choice([4, 6, 8, 10, 12])),
                       "anorm": float(rng.choice([0.3, 1.0, 2.0])), "s": int(rng.integers(1 << 30)), "group": "tay-%d" % (rep % 10), "cost": 3})
+    for kind in (["uhf", "noci"] if q else ["uhf", "noci", "ghf", "ucisd"]):
+        for rep in range(2 if q else 6):
+            cases.append({"type": "sampler", "kind": kind, "norb": 4, "nelec": [2, int(rng.choice([1, 2]))], "nchol": int(rng.integers(1, 4)),
+                          "nexp": int(rng.choice([6, 10])), "shape": [int(rng.integers(1, 4)), int(rng.integers(2, 4))], "rdm1": str(rng.choice(["trial", "random"])),
+                          "ene0": float(rng.normal()), "dt": float(rng.choice([0.01, 0.05])), "nw": 4, "s": int(rng.integers(1 << 30)),
+                          "group": "smp-%s-%d" % (kind, rep), "cost": 12})
     for ne in ([(2, 1), (1, 1)] if q else [(2, 1), (1, 1), (2, 2), (1, 1)]):
         for rep in range(2 if q else 6):
             nchol = int(rng.choice([1, 2]))
@@ -217,5 +223,69 @@ def run_ladder(case):
             "counters": {"ladders": 1}}
 
 
+def run_sampler(case):
+    """sampler.propagate_free: the trajectory it returns, its block energies and block weights, against the step model driven
+    with the reproduced random stream"""
+    import jax.numpy as jnp
+    from jax import random
+
+    from ad_afqmc import sampling
+
+    rng = np.random.default_rng(case["s"])
+    norb = case["norb"]
+    na, nb = case["nelec"]
+    nw, dt = case["nw"], case["dt"]
+    F = fockref.get(norb)
+    S = afqmc.make_system(case["kind"], norb, (na, nb), rng, walker_type="uhf", dt=dt, n_walkers=nw, nchol=case["nchol"], n_exp_terms=case["nexp"],
+                          rdm1=case["rdm1"], ene0=case["ene0"], chol_scale=0.6)
+    prop, trial, hd, wdat, ham = S["prop"], S["trial"], S["ham_data"], S["wave_data"], S["ham"]
+    psi = S["t"]["psi"]
+    n_steps, n_blocks = case["shape"]
+    smp = sampling.sampler(n_prop_steps=n_steps, n_ene_blocks=1, n_sr_blocks=1, n_blocks=n_blocks)
+    w0 = afqmc.noisy_walkers(rng, S, nw, noise=0.3)
+    pd = prop.init_prop_data(trial, wdat, hd, w0)
+    key0 = random.PRNGKey(case["s"] % 65521)
+    pd["key"] = key0
+    tr, be, bw, key_out = smp.propagate_free(ham, hd, prop, pd, trial, wdat)
+    be, bw = np.asarray(be), np.asarray(bw)
+    h1 = np.asarray(S["h1"])
+    H = F.hamiltonian(S["h0"], h1[0], h1[1], S["chol"])
+    U = [np.asarray(w0[0]).copy(), np.asarray(w0[1]).copy()]
+    scal = np.ones(nw, dtype=complex)
+    key = key0
+    worst = {"state": 0.0, "overlap": 0.0, "block_weight": 0.0, "block_energy": 0.0}
+    for b in range(n_blocks):
+        key, sub = random.split(key)
+        fields = np.asarray(random.normal(sub, shape=(n_steps, nw, case["nchol"])))
+        for st in range(n_steps):
+            for k in range(nw):
+                U[0][k], U[1][k], sc, _ = step_model(S, dt, case["nexp"], case["ene0"], fields[st, k], U[0][k], U[1][k])
+                scal[k] *= sc
+        Qu, Qd = np.asarray(tr["walkers"][0])[b], np.asarray(tr["walkers"][1])[b]
+        norms, ov = np.asarray(tr["norms"])[b], np.asarray(tr["overlaps"])[b]
+        num = den = 0.0
+        for k in range(nw):
+            ref = scal[k] * F.det(U[0][k], U[1][k])
+            got = norms[k] * F.det(Qu[k], Qd[k])
+            nr = np.linalg.norm(ref)
+            worst["state"] = max(worst["state"], float(np.linalg.norm(got - ref) / nr))
+            o_ref = np.vdot(psi, ref)
+            worst["overlap"] = max(worst["overlap"], float(abs(ov[k] - o_ref) / (np.linalg.norm(psi) * nr)))
+            el = np.vdot(psi, H @ ref) / o_ref
+            num += el * o_ref
+            den += o_ref
+        worst["block_weight"] = max(worst["block_weight"], float(abs(bw[b] - den) / abs(den)))
+        worst["block_energy"] = max(worst["block_energy"], float(abs(be[b] - num / den) / max(1.0, abs(num / den))))
+    etol = 2e-4 if case["kind"] in ("ucisd", "cisd") else 1e-8
+    ky = "C05/sampler/%s" % case["kind"]
+    events = [judge("sampler/trajectory-state", worst["state"], 1e-9 * n_blocks * n_steps, ky + "/state"),
+              judge("sampler/stored-overlaps", worst["overlap"], 1e-9 * n_blocks * n_steps, ky + "/overlaps"),
+              judge("sampler/block-weight-is-sum-of-overlaps", worst["block_weight"], 1e-8, ky + "/block-weight"),
+              judge("sampler/block-energy-is-overlap-weighted-local-energy", worst["block_energy"], etol, ky + "/block-energy"),
+              ev("sampler/key-advanced", bool(np.array_equal(np.asarray(key_out), np.asarray(key))), key=ky + "/key")]
+    return {"events": events, "nontrivial": True, "sample": {"kind": case["kind"], "shape": case["shape"], "worst": worst, "block_energies": [complex(x) for x in be[:2]]},
+            "counters": {"bookkeeping_steps": n_blocks * n_steps * nw, "sampler_blocks": n_blocks}}
+
+
 def run_case(case):
-    return {"book": run_book, "taylor": run_taylor, "ladder": run_ladder}[case["type"]](case)
+    return {"book": run_book, "taylor": run_taylor, "ladder": run_ladder, "sampler": run_sampler}[case["type"]](case)
